@@ -5,6 +5,7 @@ import struct
 
 from vlib import session as S
 from vlib import wire
+from vlib import budget
 from vlib.world import World, peer_open, KEEPALIVE, frame, reactor
 from vlib.meter import METER
 
@@ -100,7 +101,12 @@ def segmentations(n, rng, full):
     """cut lists for a stream of n bytes"""
     segs = [('one', [])]
     segs.append(('bytewise', list(range(1, n))))
-    cuts1 = list(range(1, n)) if (full or n <= 64) else sorted(rng.sample(range(1, n), 40))
+    if n <= 64 or (full and n <= 320):
+        cuts1 = list(range(1, n))
+    else:
+        # every cut inside the first two headers, then a sample of the rest
+        head = list(range(1, min(n, 45)))
+        cuts1 = sorted(set(head if full else []) | set(rng.sample(range(1, n), 120 if full else 40)))
     for c in cuts1:
         segs.append(('1cut', [c]))
     if n >= 3:
@@ -282,7 +288,7 @@ def plan(tier, seed):
     shards.append(dict(kind='marker', lo=0, hi=0, states=STATES, full=full, seed=seed, segs='all'))
     shards.append(dict(kind='trunc', lo=0, hi=0, states=['ESTABLISHED'], full=False, seed=seed, segs='few'))
     npool = 16
-    per = 20 if not full else 400
+    per = 20 if not full else 150
     for i in range(npool):
         shards.append(dict(kind='pool', lo=0, hi=per, states=STATES, full=full, seed=seed * 100 + i, segs='all'))
     return shards
@@ -295,6 +301,8 @@ def run_shard(sh):
     res = dict(evaluations=0, counters={}, maxima={}, sets={}, distinct=[], samples=[], violations=[])
     n = 0
     for stream in gen_streams(sh['kind'], sh['lo'], sh['hi'], rng):
+        if sh['kind'] == 'pool' and budget.expired():
+            break
         for st in sh['states']:
             check_stream(stream, st, rng, sh['full'], stats, V, sh['segs'])
             n += 1
